@@ -113,6 +113,17 @@ Proof.
 Qed.
 Print Assumptions C03_median_aggregation.
 
+(* Blocking-adjusted starting prior, whatever the column names look like: the code lower-cases
+   the names on both sides; that is the same as comparing the names as they are (the
+   specification) whenever no two DISTINCT names involved (rule columns, columns of exact-match
+   levels) collide in lower case. *)
+Theorem C03_prior_adjustment :
+  forall br m,
+    (forall x y, In x (names_involved br m) -> In y (names_involved br m) -> lower x = lower y -> x = y) ->
+    adjusted_prior_impl br m = adjusted_prior_spec br m.
+Proof. intros br m H. exact (prior_adjustment_names lower br m H). Qed.
+Print Assumptions C03_prior_adjustment.
+
 (* Blocking-adjusted starting prior for a column with upper-case letters: the code (both sides
    lower-cased since fix 6a6654d9) agrees with the specification (names compared as they
    are); the former one-sided lower() silently skipped the adjustment (DESIGN 7.6). *)
